@@ -280,7 +280,7 @@ def rand_mef(rng, node_mode=False, max_edges=6):
     acyclic = nx.is_directed_acyclic_graph(G)
     if acyclic and rng.random() < 0.35:
         kw["sparsity_lambda"] = rng.choice([0.25, 0.5, 1, 2])
-    if rng.random() < 0.35 and not node_mode:
+    if rng.random() < 0.35:
         nodes = list(G.nodes())
         kw["additional_starts"] = [v for v in nodes if rng.random() < 0.3]
         kw["additional_ends"] = [v for v in nodes if rng.random() < 0.3]
